@@ -37,10 +37,10 @@ T(sys, par, st, pf, ch) == [sys |-> sys, par |-> par, st |-> st, pf |-> pf, ch |
 -----------------------------------------------------------------------------
 (* Part 1: simulated transcripts *)
 Sim_sch(q) ==
-  { T("sch", [q |-> q, idrep |-> TRUE], [X |-> X], [alpha |-> (t - c * X) % q, t |-> t], c) :
+  { T("sch", [q |-> q, idrep |-> FALSE], [X |-> X], [alpha |-> (t - c * X) % q, t |-> t], c) :
       X \in 0..(q - 1), t \in 0..(2 * q), c \in 0..(q - 1) }
 Sim_schv(q) ==
-  { T("schv", [q |-> q, idrep |-> TRUE], [V |-> V, R |-> R], [alpha |-> (t * R + u - c * V) % q, t |-> t, u |-> u], c) :
+  { T("schv", [q |-> q, idrep |-> FALSE], [V |-> V, R |-> R], [alpha |-> (t * R + u - c * V) % q, t |-> t, u |-> u], c) :
       V \in 0..(q - 1), R \in 0..(q - 1), t \in {0, 1, 2, q, q + 1}, u \in {0, 1, 3, q, q + 2}, c \in 0..(q - 1) }
 
 (* dln, K = 2: h1, h2 free (also 0, 1, equal, shifted by N), t free, alpha solved *)
